@@ -1257,7 +1257,8 @@ fn file_name(file_prefix: &str, file_ext: &str, ts: &str, id: &str) -> String {
     format!("{}.{}.{}.{}", file_prefix, ts, id, file_ext)
 }
 
-// Whether a file name has the shape `{prefix}.{ts}.{millis}.{id}.{ext}` produced by `file_name`
+// Whether a file name has the shape `{prefix}.{ts}.{millis}.{id}.{ext}` produced by `file_name`,
+// with the segments `file_ts` and `file_id` produce
 //
 // Matching on the prefix and extension alone would also pick up files belonging to other
 // file sets in the same directory, like `app2.{..}.log` or `app.debug.{..}.log` for the prefix `app`
@@ -1291,7 +1292,50 @@ fn is_file_set_member(file_name: &str, file_prefix: &str, file_ext: &str) -> boo
         i += 1;
     }
 
-    separators == 4
+    if separators != 4 {
+        return false;
+    }
+
+    // The segments are what `file_ts` and `file_id` produce: a period of digits and `-`,
+    // a counter of at least 8 digits, and an id of exactly 8 lowercase hex digits.
+    // Anything else was written by someone else
+    let mut i = 1;
+
+    let mut ts_len = 0;
+    while i < middle.len() && middle[i] != b'.' {
+        if !(middle[i] >= b'0' && middle[i] <= b'9' || middle[i] == b'-') {
+            return false;
+        }
+
+        ts_len += 1;
+        i += 1;
+    }
+
+    i += 1;
+
+    let mut millis_len = 0;
+    while i < middle.len() && middle[i] != b'.' {
+        if !(middle[i] >= b'0' && middle[i] <= b'9') {
+            return false;
+        }
+
+        millis_len += 1;
+        i += 1;
+    }
+
+    i += 1;
+
+    let mut id_len = 0;
+    while i < middle.len() && middle[i] != b'.' {
+        if !(middle[i] >= b'0' && middle[i] <= b'9' || middle[i] >= b'a' && middle[i] <= b'f') {
+            return false;
+        }
+
+        id_len += 1;
+        i += 1;
+    }
+
+    ts_len > 0 && millis_len >= 8 && id_len == 8 && i + 1 == middle.len()
 }
 
 trait Filesystem {
